@@ -249,7 +249,10 @@ pub fn gate_grant(point: &str, force_timeout: bool) -> bool {
     };
     let (ticket, _) = c.parked.remove(i);
     c.granted.push(ticket);
-    c.force_timeout = force_timeout;
+    if force_timeout {
+        // stays set until the wait loop consults it (other threads may be granted in between)
+        c.force_timeout = true;
+    }
     c.version += 1;
     CAP_CV.notify_all();
     true
